@@ -168,6 +168,10 @@ func (i *interpreter) global(g *ssa.Global) *value {
 		return r
 	}
 	cell := zero(mustDeref(g.Type()))
+	// a sentinel error of a package whose initialiser is not interpreted: a unique error value
+	if it, ok := mustDeref(g.Type()).Underlying().(*types.Interface); ok && it.NumMethods() == 1 && it.Method(0).Name() == "Error" {
+		cell = i.newError("<" + g.Pkg.Pkg.Path() + "." + g.Name() + ">")
+	}
 	i.globals[g] = &cell
 	return &cell
 }
